@@ -247,38 +247,42 @@ Proof.
     intros H; cbn in H; contradiction.
 Qed.
 
-Lemma executor_commit_armed_ok H prm st vc : armed_ok st -> armed_ok (fst (executor_commit H prm st vc)).
+Lemma executor_commit_cases H prm st vcs :
+  (fst (fst (executor_commit H prm st vcs)) = st /\ snd (executor_commit H prm st vcs) = false) \/
+  (snd (executor_commit H prm st vcs) = true /\
+   rs_suspended st = false /\ rs_committee st <> None /\
+   exists p1 nt, fst (fst (executor_commit H prm st vcs)) =
+     mkRS (rs_round st) (rs_root st) (rs_htype st) (Some p1) (rs_committee st) (rs_suspended st) nt).
 Proof.
-  intros I. unfold executor_commit.
-  destruct (rs_suspended st) eqn:Es; [exact I|].
-  destruct (rs_committee st) as [c|] eqn:Ec; [|exact I].
-  destruct (rs_pool st) as [p|] eqn:Ep; [|exact I].
-  destruct (verify _ _ _ vc); try exact I.
-  destruct (add c p (vc_ec vc)) as [p1 e]. destruct e; try exact I.
-  cbn [fst]. intros _. unfold active. cbn. rewrite ?Es, ?Ec. repeat split; try reflexivity; discriminate.
+  unfold executor_commit. destruct vcs as [|vc r]; [left; split; reflexivity|].
+  destruct (rs_suspended st) eqn:Es; [left; split; reflexivity|].
+  destruct (rs_committee st) as [c|] eqn:Ec; [|left; split; reflexivity].
+  destruct (rs_pool st) as [p|] eqn:Ep; [|left; split; reflexivity].
+  destruct (commit_all _ _ _ c p (vc :: r)) as [p1 code].
+  destruct (code =? 0); [|left; split; reflexivity].
+  right. cbn [fst snd]. split; [reflexivity|]. split; [reflexivity|]. split; [discriminate|].
+  eexists. eexists. reflexivity.
 Qed.
 
-Lemma executor_commit_ok_active H prm st vc :
-  snd (executor_commit H prm st vc) = 0 -> active (fst (executor_commit H prm st vc)).
+Lemma executor_commit_armed_ok H prm st vcs :
+  armed_ok st -> armed_ok (fst (fst (executor_commit H prm st vcs))).
 Proof.
-  unfold executor_commit.
-  destruct (rs_suspended st) eqn:Es; [cbn; discriminate|].
-  destruct (rs_committee st) as [c|] eqn:Ec; [|cbn; discriminate].
-  destruct (rs_pool st) as [p|] eqn:Ep; [|cbn; discriminate].
-  destruct (verify _ _ _ vc) eqn:Ev; try (cbn; discriminate).
-  destruct (add c p (vc_ec vc)) as [p1 e]. destruct e; try (cbn; discriminate).
-  intros _. unfold active. cbn. rewrite ?Es, ?Ec. repeat split; try reflexivity; discriminate.
+  intros I. destruct (executor_commit_cases H prm st vcs) as [[-> _]|(_ & Hs & Hc & p1 & nt & ->)]; [exact I|].
+  intros _. unfold active. cbn. repeat split; [exact Hs|exact Hc|discriminate].
 Qed.
 
-Lemma executor_commit_keeps_active H prm st vc :
-  active st -> active (fst (executor_commit H prm st vc)).
+Lemma executor_commit_ok_active H prm st vcs :
+  snd (executor_commit H prm st vcs) = true -> active (fst (fst (executor_commit H prm st vcs))).
 Proof.
-  intros (A & B & C). unfold executor_commit. rewrite A.
-  destruct (rs_committee st) as [c|] eqn:Ec; [|contradiction].
-  destruct (rs_pool st) as [p|] eqn:Ep; [|contradiction].
-  destruct (verify _ _ _ vc); try (cbn [fst]; unfold active; rewrite ?A, ?Ec, ?Ep; repeat split; try reflexivity; discriminate).
-  destruct (add c p (vc_ec vc)) as [p1 e].
-  destruct e; cbn [fst]; unfold active; cbn; rewrite ?A, ?Ec, ?Ep; repeat split; try reflexivity; discriminate.
+  intros Hr. destruct (executor_commit_cases H prm st vcs) as [[_ Hf]|(_ & Hs & Hc & p1 & nt & ->)]; [congruence|].
+  unfold active. cbn. repeat split; [exact Hs|exact Hc|discriminate].
+Qed.
+
+Lemma executor_commit_keeps_active H prm st vcs :
+  active st -> active (fst (fst (executor_commit H prm st vcs))).
+Proof.
+  intros A. destruct (executor_commit_cases H prm st vcs) as [[-> _]|(_ & Hs & Hc & p1 & nt & ->)]; [exact A|].
+  unfold active. cbn. repeat split; [exact Hs|exact Hc|discriminate].
 Qed.
 
 Lemma run_txs_spec H prm txs : forall st fin st' codes fin',
@@ -287,15 +291,15 @@ Lemma run_txs_spec H prm txs : forall st fin st' codes fin',
 Proof.
   induction txs as [|vc r IH]; intros st fin st' codes fin'; cbn [run_txs].
   - intros Hx. injection Hx as <- <- <-. split; auto.
-  - destruct (executor_commit H prm st vc) as [st1 code] eqn:E1.
-    destruct (run_txs H prm st1 r (fin || (code =? 0))) as [[st2 codes2] fin2] eqn:E2.
+  - destruct (executor_commit H prm st vc) as [[st1 code] reg] eqn:E1.
+    destruct (run_txs H prm st1 r (fin || reg)) as [[st2 codes2] fin2] eqn:E2.
     intros Hx. injection Hx as <- <- <-. apply IH in E2 as [A B]. split.
     + intros I. apply A. pose proof (executor_commit_armed_ok H prm st vc I) as I1.
       rewrite E1 in I1. exact I1.
     + intros Hf Hf2. apply B; [|exact Hf2]. intros Ho. apply orb_true_iff in Ho as [Ho|Ho].
       * pose proof (executor_commit_keeps_active H prm st vc (Hf Ho)) as K. rewrite E1 in K. exact K.
       * pose proof (executor_commit_ok_active H prm st vc) as K. rewrite E1 in K. cbn [fst snd] in K.
-        apply K. lia.
+        apply K. exact Ho.
 Qed.
 
 Lemma try_finalize_armed_ok H prm c p st timeout st' evs :
